@@ -232,6 +232,15 @@ def r5_recovery(ctx):
                     fi = found_index(base)
                     if not (fi is not None and fi[1] == finds[1][1] and kk == 1):
                         bad += 1
+            # the closing quote must be of the same kind as the opening one (the normal path in next() closes on `b == quote`)
+            c2 = F.closure("quick_xml::events::attributes::IterState::skip_eq_value::{closure#1}")
+            same = False
+            if c2 is not None:
+                for p2 in sym.walk(c2):
+                    r2 = ret_of(p2)
+                    if r2 is not None and r2[0] == "bin" and r2[1] == "Eq" and (upvar_of(c2, r2[2]) == "quote" or upvar_of(c2, r2[3]) == "quote"):
+                        same = True
+            ctx.ob("R5", "skip_eq_value:matching-quote", same, "the skipped value ends at the first byte equal to the quote that opened it (a value may contain the other quote character), as in IterState::next", config=cfg)
             ctx.ob("R5", "skip_eq_value:resume-after-quote", quote_rets >= 1 and bad == 0,
                    "after a quoted value the documented recovery point is the byte after the closing quote (index of the closing quote + 1); %d of %d quote exits resume elsewhere" % (bad, quote_rets), config=cfg)
             # quote arms exist: '"' and '\''
